@@ -13,6 +13,7 @@ import re
 import subprocess
 import time
 import vlib
+from props import c14d
 
 EXPECT_REPLY = ("sub", "leave", "deltopic", "deluser")
 
@@ -429,6 +430,9 @@ def gen_seq_scn(rng, sid):
             else:
                 form = "chn" if rng.random() < 0.12 else "grp"
             l = " ".join(w[:5] + [w[5] if len(w) > 5 else "0", "as=" + form])
+        elif w[3] == "deltopic" and rng.random() < 0.45:
+            # round s14d: the store call of the owner's {del topic} fails (model step HubUnregFail)
+            l = " ".join(w[:5] + ["0", "fault=TopicDelete"])
         sc.bursts.append([l])
     return sc
 
@@ -468,6 +472,9 @@ def parse_out(text):
             b["abandoned"].append(int(w[1]))
         elif w[0] == "injected":
             b["injected"].append(int(w[2]))
+        elif w[0] == "fault":
+            # fault <session> <rid> <adapter method> fired=<0|1>   (zz_verif_c14d_test.go)
+            b.setdefault("faults", {})[(int(w[1]), w[2])] = (w[3], w[4] == "fired=1")
         elif w[0] == "state" and w[1] == "sess":
             d = dict(p.split("=", 1) for p in w[3:])
             d["subs"] = set(int(x) for x in d["subs"].split(",") if x and not x.startswith("?"))
@@ -556,7 +563,8 @@ def requests_of(burst_lines):
         w = l.split()
         if w[0] == "q":
             res.append(dict(si=int(w[1]), rid=w[2], kind=w[3], k=int(w[4]) if len(w) > 4 else None,
-                            arg=w[5] if len(w) > 5 and not w[5].startswith("as=") else None,
+                            arg=w[5] if len(w) > 5 and not w[5].startswith("as=") and not w[5].startswith("fault=") else None,
+                            fault=([x[6:] for x in w[5:] if x.startswith("fault=")] or [None])[0],
                             **{"as": ([x[3:] for x in w[5:] if x.startswith("as=")] or [None])[0]}))
     return res
 
@@ -873,6 +881,7 @@ def monitor0(sc, r):
                         si, u, ", channel reader" if reader else "", ", attached to 'me'" if on_me else ", not attached to 'me'", k)))
             deleted.add(k)
         prev = b
+    res += c14d.monitor_faults_c14d(sc, r)
     f = r.get("final")
     if f:
         if int(f["goroutines"]) - int(f.get("leaked", 0)) != int(f["baseline"]):
@@ -925,7 +934,8 @@ def model_lines(sc):
             form = "grp"
             if q["k"] is not None and q["kind"] in ("sub", "leave"):
                 form = q.get("as") or natural_form(sc, q["si"], q["k"])     # the name the driver writes
-            out.append("op %s %s %s %s %s %s" % (w[3], w[1], w[2][1:], w[4] if len(w) > 4 else "0", q["arg"] or "0", form))
+            kind = "deltopicfail" if (w[3] == "deltopic" and q.get("fault") == "TopicDelete") else w[3]
+            out.append("op %s %s %s %s %s %s" % (kind, w[1], w[2][1:], w[4] if len(w) > 4 else "0", q["arg"] or "0", form))
     out.append("end")
     return out
 
@@ -940,8 +950,17 @@ def impl_projection(sc, r):
         top = sorted((k, int(t["loaded"]), int(t["stored"])) for k, t in b["topics"].items())
         term = sorted(si for si, st in b["sess"].items() if st["term"])
         cat = sorted((k, si) for k, t in b["topics"].items() if t["loaded"] for si in t["chansess"])
+        # round s14d: (paused, deleted) of every registered topic; the failed store call of this op and the flags of its topic
+        flags = sorted((k, int(t.get("paused", "0")), int(t.get("deleted", "0"))) for k, t in b["topics"].items() if t["loaded"])
+        fired = sorted(rid[1:] for (_, rid), (_, f) in b.get("faults", {}).items() if f)
+        fds = []
+        for q in requests_of(sc.bursts[bi]):
+            if q.get("fault") and b.get("faults", {}).get((q["si"], q["rid"]), (None, False))[1] and b["topics"].get(q["k"], {}).get("loaded"):
+                t = b["topics"][q["k"]]
+                fds.append((q["k"], int(t.get("paused", "0")), int(t.get("deleted", "0"))))
         res.append({"replies": [list(x) for x in fr], "subs": [list(x) for x in att], "sessions": [list(x) for x in tat],
-                    "chansess": [list(x) for x in cat], "topics": [list(x) for x in top], "terminated": term})
+                    "chansess": [list(x) for x in cat], "topics": [list(x) for x in top], "terminated": term,
+                    "flags": [list(x) for x in flags], "fired": fired, "fdstatus": [list(x) for x in fds]})
     return res
 
 
@@ -956,7 +975,10 @@ def parse_model(lines):
             cur = []
             res[w[1]] = cur
         elif w[0] == "op":
-            cur.append({"replies": [], "subs": [], "sessions": [], "chansess": [], "topics": [], "terminated": []})
+            cur.append({"replies": [], "subs": [], "sessions": [], "chansess": [], "topics": [], "terminated": [],
+                        "flags": [], "fired": [], "fdstatus": []})
+            if len(w) > 1:
+                cur[-1]["_rid"] = w[1]
         elif w[0] == "f":
             cur[-1]["replies"].append([int(w[1]), w[2], int(w[3]), w[4] if len(w) > 4 else ""])
         elif w[0] == "sub":
@@ -969,8 +991,15 @@ def parse_model(lines):
             cur[-1]["topics"].append([int(w[1]), int(w[2]), int(w[3])])
         elif w[0] == "term":
             cur[-1]["terminated"].append(int(w[1]))
+        elif w[0] == "flags":
+            cur[-1]["flags"].append([int(w[1]), int(w[2]), int(w[3])])
+        elif w[0] == "fdstatus":
+            cur[-1]["fdstatus"].append([int(w[1]), int(w[2]), int(w[3])])
+        elif w[0] == "fired":
+            cur[-1]["fired"].append(w[1])
     for ops in res.values():
         for o in ops:
+            o.pop("_rid", None)
             for key in o:
                 o[key].sort()
     return res
@@ -1007,6 +1036,9 @@ def run(ctx):
                     bursts.append(csc)
         bursts += [gen_burst_scn(rng, "b%d" % i) for i in range(120 if quick else 1500)]
         bursts += [gen_chan_scn_c14c(rng, "h%d" % i) for i in range(60 if quick else 800)]
+        # round s14d: failed {del topic} followed by member requests; one stalled session attached to 66-78 topics
+        bursts += [c14d.gen_fault_scn_c14d(rng, "x%d" % i) for i in range(40 if quick else 600)]
+        bursts += [c14d.gen_many_scn_c14d(rng, "y%d" % i) for i in range(6 if quick else 60)]
         seqs = [gen_seq_scn(rng, "s%d" % i) for i in range(150 if quick else 1500)]
     t0 = time.time()
     results, logs = run_driver(ctx, bursts + seqs)
@@ -1097,7 +1129,7 @@ def run(ctx):
                 nontrivial.add(hash((tuple(map(tuple, sc.bursts)), tuple(sig))))
     ctx.coverage.update({
         "evaluations": len(bursts) + len(seqs), "distinct_nontrivial": len(nontrivial),
-        "rule": "seeded random scenarios: 2-4 users, 1-2 sessions each (+ optionally one session with a 2-slot send queue whose writer is stalled: slow-consumer eviction), 1-2 group/channel topics, a 'me' topic per user, optionally a p2p topic; BURST scenarios: 3-7 bursts in which ~70% of the sessions issue 1-3 requests each concurrently (sub/leave/unsub/pub/del-topic/del-user/disconnect) plus injected idle unloads, then a final burst re-subscribing to every group topic; CHANNEL scenarios (gen_chan_scn_c14c): one channel-enabled topic whose users are partly group subscribers (grpXXX) and partly readers (chnXXX), optionally a plain group topic, 1-2 sessions with a 2-slot send queue; requests carry the name form (as=grp|chn): attach under either name, {leave} / {leave unsub} under either name, slow-consumer phases (writers stalled, the owner publishes 3-4 messages, the third broadcast drops the session), disconnects, idle unloads, a final re-subscribe under both names; SEQUENTIAL scenarios: 6-18 single requests over group topics with and without channel functionality, {leave} under either name, a channel name for a plain group now and then (the model's alphabet), compared exactly with the extracted model (replies, Session.subs, Topic.sessions, isChanSub flags, loaded/stored, terminated); non-trivial = at least one request accepted (200); distinct by (requests, replies)",
+        "rule": "seeded random scenarios: 2-4 users, 1-2 sessions each (+ optionally one session with a 2-slot send queue whose writer is stalled: slow-consumer eviction), 1-2 group/channel topics, a 'me' topic per user, optionally a p2p topic; BURST scenarios: 3-7 bursts in which ~70% of the sessions issue 1-3 requests each concurrently (sub/leave/unsub/pub/del-topic/del-user/disconnect) plus injected idle unloads, then a final burst re-subscribing to every group topic; CHANNEL scenarios (gen_chan_scn_c14c): one channel-enabled topic whose users are partly group subscribers (grpXXX) and partly readers (chnXXX), optionally a plain group topic, 1-2 sessions with a 2-slot send queue; requests carry the name form (as=grp|chn): attach under either name, {leave} / {leave unsub} under either name, slow-consumer phases (writers stalled, the owner publishes 3-4 messages, the third broadcast drops the session), disconnects, idle unloads, a final re-subscribe under both names; SEQUENTIAL scenarios: 6-18 single requests over group topics with and without channel functionality, {leave} under either name, a channel name for a plain group now and then (the model's alphabet), compared exactly with the extracted model (replies, Session.subs, Topic.sessions, isChanSub flags, loaded/stored, terminated); FAILED-DELETE scenarios (round s14d, gen_fault_scn_c14d; also in the sequential scenarios: 45% of the owners' {del topic}): the owner's {del what=topic} meets a failing store.Topics.Delete (request suffix fault=TopicDelete: memverif.SetHook arms the fault for exactly that adapter call) on a loaded topic with sessions attached or on an unloaded one, alone in its burst, followed by 2-4 bursts of leave / unsubscribe / subscribe / publish / disconnect of the members, a second failed delete, a successful delete, a final re-subscription; MANY-TOPICS scenarios (gen_many_scn_c14d): one session attached to 66-78 group topics of one owner, its writer stalled, then {del user} of the owner / all topics deleted at once / both / the user's other session unsubscribes from all of them (evictUser), then the writer resumes and the session asks for four of the topics again; non-trivial = at least one request accepted (200); distinct by (requests, replies)",
         "burst_scenarios": len(bursts), "sequential_scenarios": len(seqs), "concurrent_bursts": conc, "requests_issued": nreq,
         "traces_validated_against_impl": compared, "correspondence_mismatches": len(mism),
         "monitor_failures": {k: len(v) for k, v in fails.items()},
@@ -1112,7 +1144,12 @@ def run(ctx):
                 "c14_symmetry_modulo_detach", "c14_attached_listed", "c14_leave_detaches_both_sides", "c14_evict_detaches_both_sides",
                 "c14_terminated_detached", "c14_online_restored",
                 "c14_deleted_stays_deleted", "c14_deleted_refuses", "c14_deleted_load_fails", "c14_deleted_not_running",
-                "c14_deleted_sessions_detached"],
+                "c14_deleted_sessions_detached",
+                "(all of the above now also over executions with any number of FAILED deletes: HubUnregFail is a step of `reach`)",
+                "c14_failed_delete_restores_status (status word: markPaused(true); Delete fails; markPaused(false) gives the word back, every word of a topic that is not paused)",
+                "c14_failed_delete_flags (every word: paused ends clear, marked-deleted untouched)", "c14_failed_delete_keeps_active", "c14_successful_delete_inactive",
+                "c14_failed_delete_status_of_instance", "c14_failed_delete_topic_as_before (hub table, instances, store rows, every queue but Hub.unreg unchanged; sessions differ in the outbox only)",
+                "c14_failed_delete_answered (500 unless the session is closing)", "c14_failed_delete_members_served"],
             "refuted by a witness schedule replayed on the real code": [
                 "c14_inflight_balance_statement (c14_inflight_balance_refuted, corpus/C14/01)",
                 "c14_reply_exactly_one_statement (c14_reply_exactly_one_refuted, corpus/C14/03)",
@@ -1125,7 +1162,9 @@ def run(ctx):
                 "c14_no_stuck_partial (reach_safe and no request in a queue of an instance whose goroutine is gone)"],
             "tested in support, NOT proved": [
                 "last clause of the property (shared data touched only under its lock / atomic): Go race detector on the burst scenarios, thorough tier",
-                "account deletion, p2p, 'me', per-user records (online counters, who is a group subscriber / a reader: 303 / 403 refusals of {sub}), presence, bounded channel capacities: burst driver + laws only"]},
+                "account deletion, p2p, 'me', per-user records (online counters, who is a group subscriber / a reader: 303 / 403 refusals of {sub}), presence, bounded channel capacities: burst driver + laws only",
+                "bounded Session.detach (64 slots): the model's s_detach ALWAYS appends the notice (unbounded queue); that the real code never drops a notice when the queue is full (the sender waits for the write loop) is what the many-topics scenarios test: law attach-symmetry after the stalled writer resumes with 66-78 notices outstanding",
+                "law topic-usable-after-failed-delete on the burst scenarios (the theorem c14_failed_delete_topic_as_before is about the model; the sequential scenarios tie it to the code: replies incl. the 500, attachments, loaded/stored and the paused / marked-deleted flags compared exactly)"]},
         "trusted_base": [
             "harness/overlay/server/zz_verif_c14_test.go: reader/writer goroutines standing in for the websocket loops (hdl_websock.go:39-145); quiescence = every goroutine parked in a receive/select + hub/topic queues empty + no request pending (runtime.Stack snapshot, as vQuiescent of the topic driver); a hang = every goroutine parked while a request is pending or a goroutine sits in a send/lock/semaphore, in 20 consecutive snapshots (no wall-clock guess); goroutines diagnosed as parked for ever are reported once and then ignored; direct field reads at quiescence",
             "harness/overlay/server/db/memverif: in-memory adapter (store contract modelled, not verified)",
